@@ -7,7 +7,6 @@ Record ccase := mkC {
   cid : N;                    (* id for kinds 1-4 *)
   cwin : N;                   (* id under which the known remove->rename window is reported (kind 6) *)
   c_ro : bool;                (* variant the harness detected in the reference trace: rename over the file? *)
-  c_lb : content;             (* export line break appended by COMMIT ([] with --strip-ending-line-break) *)
   c_s0 : fs;                  (* directory before csvq started *)
   c_acq : list (bool * N);    (* acquisitions in program order: (true,t) CREATE TABLE t; (false,t) first load of t for update *)
   c_cr : list tchange;        (* created tables, in the order this run's COMMIT visited them (Go map order) *)
@@ -26,7 +25,7 @@ Definition acq_ops (a : list (bool * N)) : list op :=
   flat_map (fun x : bool * N => if fst x then acquire_create (snd x) else acquire_update (snd x)) a.
 
 Definition model_ops (c : ccase) : list op :=
-  acq_ops (c_acq c) ++ commit_ops (c_ro c) (c_lb c) (c_cr c) (c_up c) (c_idle c).
+  acq_ops (c_acq c) ++ commit_ops (c_ro c) (c_cr c) (c_up c) (c_idle c).
 
 Definition trace_ok (c : ccase) : bool :=
   perm_b (map tid (c_cr c)) (c_exp_cr c) && perm_b (map tid (c_up c)) (c_exp_up c)
@@ -43,9 +42,9 @@ Definition ready_ok (c : ccase) : bool :=
   commit_ready (run (c_s0 c) (acq_ops (c_acq c))) (c_cr c) (c_up c) (c_idle c)
   && all_enabled (c_s0 c) (model_ops c).
 
-Definition spec_ok (c : ccase) : bool := old_or_new (c_lb c) (c_cr c) (c_up c) (c_s0 c) (c_snap c).
+Definition spec_ok (c : ccase) : bool := old_or_new (c_cr c) (c_up c) (c_s0 c) (c_snap c).
 Definition in_window (c : ccase) : bool :=
-  negb (c_ro c) && old_new_or_temp (c_lb c) (c_cr c) (c_up c) (c_s0 c) (c_snap c).
+  negb (c_ro c) && old_new_or_temp (c_cr c) (c_up c) (c_s0 c) (c_snap c).
 
 (* kinds: 1 trace <> model op list; 2 old_or_new false on the directory found (outside the known
    window); 3 directory found <> model state; 4 the commit_ready hypothesis / enabledness fails in the
